@@ -159,6 +159,36 @@ SWEEP_QUICK = [8, 9, 10, 16, 17, 32, 33, 64, 65, 128, 255, 256, 257, 1000, 1001,
 ODD_LETTERS = ['İ', 'Ⱥ', 'Ⱦ', 'ẞ', 'ß', '\u212a', '\u212b', '\u2126', 'ǅ', 'ﬁ', 'ſ', 'ı', 'é', 'Ω', '𝔘', 'ŉ']
 
 
+def category_chars():
+    """three characters of EVERY Unicode general category (the first, a middle and the last one below U+3100, plus one astral
+    where there is one): letters of every kind, marks, decimal / LETTER / other numbers, every punctuation and symbol class,
+    separators, controls, format characters, private use, unassigned"""
+    import unicodedata
+    by = {}
+    for cp in list(range(0x20, 0x3100)) + list(range(0x10000, 0x10200)) + list(range(0x1D400, 0x1D800)) + [0xE000, 0xF8FF, 0xFFFE, 0x10FFFF, 0xE0001]:
+        if 0xD800 <= cp <= 0xDFFF:
+            continue
+        by.setdefault(unicodedata.category(chr(cp)), []).append(chr(cp))
+    out = []
+    for cat in sorted(by):
+        cs = by[cat]
+        for c in (cs[0], cs[len(cs) // 2], cs[-1]):
+            if c not in out:
+                out.append(c)
+    return out
+
+
+CATEGORY_CHARS = category_chars()
+
+
+def category_tokens():
+    """each category character alone, leading, inside and ending a word, after a digit, doubled"""
+    out = []
+    for c in CATEGORY_CHARS:
+        out += [c, c + 'x', 'x' + c + 'y', 'x' + c, '5' + c, c + '5', c + c, c + ' is 5', c + c + ' says hello']
+    return out
+
+
 def sized_tokens(quick):
     """tokens of every class whose BYTE length sweeps 1..80 and the SWEEP sizes, with a multi-byte letter ending exactly at,
     straddling, or starting at that byte; words built around each letter of ODD_LETTERS at every byte length 1..14"""
